@@ -3,14 +3,14 @@ import SqlgrepModel.Lemmas.LexConcat
 import SqlgrepModel.Lemmas.ParseBlind
 /-
 `parsing::parse` (tokenizer, parser, lowering) on a concatenation of two definition texts, from the three stage lemmas
-`Lex.tokenize_append`, `Parse.parseTokens_append` and the lowering of a list of CREATE TABLE statements
+`Lex.Concat.tokenize_append`, `Parse.parseTokens_append` and the lowering of a list of CREATE TABLE statements
 (`lowerCreates_append`): when `A` is accepted as CREATE TABLE statements and ends cleanly in `) ;`, and the first token of
 `B` is `CREATE`, then `A ++ B` is read as the statements of `A` followed by the statements of `B`; if `B` is not accepted,
 `A ++ B` is rejected with the same kind of error.
 -/
 namespace Sqlgrep
 
-namespace Parse
+namespace Parse.Concat
 
 theorem parseSelect_ok_select (T : PrecTables) (f : Nat) (s s' : PSt) (op : POp) (h : parseSelect T f s = .ok op s') :
     ∃ q, op = .select q := by
@@ -95,9 +95,10 @@ theorem parseTokens_creates_shape {T : PrecTables} (c : PTok) (r : List PTok) (o
         exact ⟨cs, hne, h.symm⟩
       · simp [hemp, mkErr] at h
 
-end Parse
+end Parse.Concat
 
-namespace Lower
+namespace Lower.Concat
+open Sqlgrep.Lower
 
 theorem lowerCreates_append (rv : List Char → Bool) : ∀ (a b : List PCreate),
     lowerCreates rv (a ++ b) =
@@ -252,10 +253,10 @@ theorem ofStmts_two (a b : List LStmt) (ha : a ≠ []) (hb : b ≠ []) : ofStmts
     | nil => exact absurd rfl hb
     | cons y ys => cases xs <;> rfl
 
-end Lower
+end Lower.Concat
 
-namespace Pipeline
-open Parse Lower
+namespace Pipeline.Concat
+open Sqlgrep.Pipeline Parse Lower Parse.Concat Lower.Concat
 
 /-- what `parsing::parse` makes of `A ++ B` from what it makes of `B`, the statements of `A` being `ssA` -/
 def concatParsed (ssA : List LStmt) : Parsed → Parsed
@@ -362,7 +363,7 @@ theorem parseToks_append (rv : List Char → Bool) (A' : List PTok) (eA : PTok) 
 /-! ### texts -/
 
 /-- what the tokenizer answers on a text that ends cleanly: its tokens, then `End` -/
-theorem tokenize_of_cleanEnd (o : Lex.Oracles) (A : List Char) (st : Lex.St) (h : Lex.CleanEnd o A st) :
+theorem tokenize_of_cleanEnd (o : Lex.Oracles) (A : List Char) (st : Lex.St) (h : Lex.Concat.CleanEnd o A st) :
     ∃ eA : PTok, Lex.tokenize o A = .ok (st.toks.reverse ++ [eA]) := by
   obtain ⟨hrun, _, _, _, _, hpend, hlast⟩ := h
   unfold Lex.tokenize
@@ -379,10 +380,10 @@ def FirstCreate (o : Lex.Oracles) (B : List Char) : Prop :=
   | .ok [] => False
   | _ => True
 
-/-- the text `A` ends, outside strings, comments and escapes, behind the `) ;` of a statement: `Lex.CleanEnd` with the
+/-- the text `A` ends, outside strings, comments and escapes, behind the `) ;` of a statement: `Lex.Concat.CleanEnd` with the
 token before the final `;` being `)` (a second `;` there would make `Parser::parse` refuse what follows) -/
 def EndsStatement (o : Lex.Oracles) (A : List Char) : Prop :=
-  ∃ st : Lex.St, Lex.CleanEnd o A st ∧ ∃ q p rest, st.toks = q :: p :: rest ∧ p.tok = .rp
+  ∃ st : Lex.St, Lex.Concat.CleanEnd o A st ∧ ∃ q p rest, st.toks = q :: p :: rest ∧ p.tok = .rp
 
 /-- **`parsing::parse` on a concatenation of definition texts.** `A` is accepted and lowers to CREATE TABLE statements,
 and ends behind the `) ;` of its last statement; the first token of `B` is `CREATE`. Then `A ++ B` is read as the
@@ -402,7 +403,7 @@ theorem parseText_append (lo : Lex.Oracles) (rv : List Char → Bool) (A B : Lis
   unfold parseText at hA ⊢
   rw [htokA] at hA
   simp only [] at hA
-  have happ := Lex.tokenize_append lo A B st hclean
+  have happ := Lex.Concat.tokenize_append lo A B st hclean
   unfold FirstCreate at hB
   cases htB : Lex.tokenize lo B with
   | error loc e =>
@@ -425,5 +426,5 @@ theorem parseText_append (lo : Lex.Oracles) (rv : List Char → Bool) (A B : Lis
       exact parseToks_append rv st.toks.reverse eA (y :: Y) ts dA
         ⟨rest.reverse, p, q, by simp [htoks], hp, hq⟩ ⟨y, Y, rfl, hB⟩ hmap hA hcreates
 
-end Pipeline
+end Pipeline.Concat
 end Sqlgrep
